@@ -2,7 +2,10 @@ module verif/symgo
 
 go 1.26.8
 
-require golang.org/x/tools v0.50.0
+require (
+	github.com/mmcloughlin/md4 v0.1.2
+	golang.org/x/tools v0.50.0
+)
 
 require (
 	golang.org/x/mod v0.41.0 // indirect
